@@ -147,8 +147,9 @@ CLAIMED = {
         'quiescence; real threads releasing concurrently (barrier, 1 us switch '
         'interval) never push it above its bound. Exploration level (small scope '
         'exhaustive).',
-        'Failed sends leak a slot (open finding D15); a limit kill whose job had '
-        'finished with its result in flight loses a slot (open finding D24).',
+        'A limit kill whose job had finished with its result in flight loses a '
+        'slot (open finding D24); failed sends are generated and judged since the '
+        'D15 repair; shrink with no free slot must wait for a release.',
         'DESIGN.md section 3 C10'),
     'C11': (
         'unit+simpool',
